@@ -505,6 +505,9 @@ static void run_op(char *line) {
 /* ------------------------------------------------------------------ */
 /* driver: split into scenarios, fork one child each                   */
 /* ------------------------------------------------------------------ */
+#ifdef VCOV
+void vcov_reset(void); void vcov_dump(const char *);
+#endif
 int main(int argc, char **argv) {
     if (argc < 2) { fprintf(stderr, "usage: vharness <scenario-file>\n"); return 2; }
     FILE *f = fopen(argv[1], "r");
@@ -527,6 +530,9 @@ int main(int argc, char **argv) {
         fflush(stdout);
         pid_t pid = fork();
         if (pid == 0) {
+#ifdef VCOV
+            vcov_reset();
+#endif
             ctx_defaults();
             for (size_t k = i + 1; k < j; k++) {
                 if (lines[k][0] == '\n' || lines[k][0] == '%') continue;
@@ -534,6 +540,9 @@ int main(int argc, char **argv) {
                 fflush(stdout);
             }
             fflush(stdout);
+#ifdef VCOV
+            vcov_dump(name);
+#endif
             _exit(0);
         }
         int st = 0;
